@@ -57,7 +57,7 @@ def instances(tier, seed):
     add("seq:replicate-then-delete", seq=['repl', 'del'], N=2, terms={'bond': 1}, K=1, cost=30)
     add("seq:empty-then-extend-then-extend", seq=['fromempty', 'ext'], N=0, terms={}, oterms='bond', cost=5)
     if tier == 'thorough':
-        add("step:delete:N5", seq=['del'], N=5, terms={'bond': 2, 'improper': 1}, K=2, cost=600)
+        add("step:delete:N5", seq=['del'], N=5, terms={'bond': 1, 'improper': 1}, K=2, cost=600)
         add("seq:extend-then-extend-then-delete", seq=['ext', 'ext', 'del'], N=2, terms={'bond': 1}, oterms='bond', K=1, cost=300)
         add("seq:delete-then-extend-map", seq=['del', 'extmap'], N=4, terms={'angle': 1}, oterms='angle', K=1, cost=300)
         add("seq:getitem-then-delete", seq=['getitem', 'del'], N=4, terms={}, K=1, cost=60)
